@@ -1,4 +1,5 @@
 from ..runner import PropCfg, SuiteCfg
+from . import c18
 
 
 def _kind(op):
@@ -40,8 +41,18 @@ CFG = PropCfg(
               should_shrink=lambda f: not any(o.split(" ")[0] in ("blocked", "wedged", "stuck", "panic", "dead", "died", "hung")
                                               for o in f["impl"]),
               nontrivial=lambda ops, outs: any(o.startswith("raw") for o in ops),
-              classify=lambda op, out: _kind(op) + "->" + out.split(" ")[0][:8])],
-    rule="suite C11: a case is one real tubes.Muxer on a scripted MsgConn, run in a child process (a panic in a "
+              classify=lambda op, out: _kind(op) + "->" + out.split(" ")[0][:8]),
+     # the decoder half: junk fed to every application-protocol reader (ok | err | panic, allocation
+     # bucket), run by C18's harness binary
+     next(SuiteCfg(s.name, binary="C18", stateless=s.stateless, signature=s.signature, nontrivial=s.nontrivial,
+                   classify=s.classify, parts_thorough=s.parts_thorough, timeout=s.timeout, kind=s.kind,
+                   observable=s.observable)
+          for s in c18.CFG.suites if s.name == "C18junk")],
+    extra_modules=["HopModel.Props.C11Decoders"],
+    rule="suite C18junk (decoder half, shared with C18): valid, damaged, truncated and random byte strings incl. "
+         "announced lengths up to 4 MiB through ReadString, Intent/AgMessage/Certificate.ReadFrom, GetCmd, "
+         "GetInitMsg, port-forward readPacket; observable ok|err|panic plus whether the allocation delta exceeds "
+         "256 KiB. suite C11: a case is one real tubes.Muxer on a scripted MsgConn, run in a child process (a panic in a "
          "muxer goroutine is the observable `panic`): a victim tube and a second tube are opened and carry "
          "traffic, then a batch of junk datagrams (all 64 flag combinations x existing/unused tube ids, length "
          "fields 0,1,n-13,n-12,n-11,32768,65523,65524,65535 on valid frames, every truncation of a frame, ACK "
